@@ -83,6 +83,28 @@ Definition chk (c : case) : list N :=
       code_if (match obs with
                | ObsFailed _ cs' _ => is_cond_true cs' CT_CanaryFailed
                | _ => true end) 13 ++
+      (* a command refuses only when its precondition does not hold or what it asks for is already in place (paused
+         already, nothing to unpause, validated already, ...): a refusal in any other state leaves the user without the command *)
+      code_if (match obs, oe with
+               | ObsRefused, Some e =>
+                   let ann := e_annots e in
+                   let has_canary := match es_canary (e_status e) with Some _ => true | None => false end in
+                   let has_strategy := match st_canary (e_strategy e) with Some _ => true | None => false end in
+                   match c with
+                   | CanaryPause => negb has_canary || negb has_strategy || a3_true (an_canary_paused ann)
+                   | CanaryUnpause => negb has_canary || negb has_strategy || negb (a3_true (an_canary_paused ann))
+                   | CanaryValidate => match es_canary (e_status e) with
+                                       | Some cs => option_eqb N.eqb (an_canary_valid ann) (Some (cs_rs cs))
+                                       | None => true end
+                   | CanaryFail => match es_canary (e_status e) with
+                                   | Some cs => negb has_strategy || negb (memN (cs_rs cs) rs_names)
+                                   | None => true end
+                   | RuPause => has_canary || a3_true (an_rolling_paused ann)
+                   | RuUnpause => has_canary || negb (a3_true (an_rolling_paused ann))
+                   | Freeze => has_canary || a3_true (an_frozen ann)
+                   | Unfreeze => has_canary || negb (a3_true (an_frozen ann))
+                   end
+               | _, _ => true end) 14 ++
       (* preconditions: an active canary for the canary commands (plus a canary strategy for pause/unpause/fail);
          none for rolling-update pause and freeze *)
       code_if (match oe with
